@@ -10,3 +10,4 @@ def run(ck):
     glyph.r3_index_bounds(ck, P)
     glyph.r4_insert_protocol(ck, P)
     image.r15_6_free_while_linked(ck, P)
+    glyph.r5_component_alpha_siblings(ck, P)
